@@ -971,7 +971,7 @@ class Text(JupyterMixin):
 
     def right_crop(self, amount: int = 1) -> None:
         """Remove a number of characters from the end of the text."""
-        max_offset = len(self.plain) - amount
+        max_offset = max(0, len(self.plain) - amount)
         _Span = Span
         self._spans[:] = [
             (
@@ -982,8 +982,8 @@ class Text(JupyterMixin):
             for span in self._spans
             if span.start < max_offset
         ]
-        self._text = [self.plain[:-amount]]
-        self._length -= amount
+        self._text = [self.plain[:max_offset]]
+        self._length = max_offset
 
     def wrap(
         self,
